@@ -1,7 +1,605 @@
-//! C33 — not implemented yet.
-use vcore::Ctx;
+//! C33 — switching to the compiled C backend mid-run is invisible.
+//!
+//! Case: a generated design (`vdesign::gen_design`, augmented so that it has a
+//! constant cone feeding comb logic and a flip-flop, a feed-forward chain that
+//! crosses a module boundary twice and `always_ff` code) and a stimulus.  The
+//! design is converted ONCE under the asynchronous C backend
+//! (`Config { use_jit, aot_c, aot_c_event, aot_c_async }`) through a
+//! `ProtoModuleCache`; every run is a fresh instance of that converted module
+//! (fresh buffers, the same background-compiled artifacts), so one `cc` run
+//! per whole-comb / whole-event function serves all swap points.
+//!
+//! The hook `verif_gate::set_swap_at(n)` makes dispatch call `n` of the run
+//! (const, comb and event dispatches counted together) the first one served
+//! by the compiled code.  Reference = swap never (every dispatch answers
+//! NotReady, the JIT does all the work), cross-checked against the plain
+//! Cranelift configuration.  Oracle: for every swap point N the outputs before
+//! the first step, after every step and the `$display` text equal the
+//! reference.
+//!
+//! Soundness: a difference is reported only if it shows again on an instance
+//! converted from scratch (`build_ir`, own compile) — otherwise, if it shows
+//! on cached instances only, it is a cache problem and gets its own
+//! signature.  A compile that never finishes makes the case inconclusive
+//! (skip).
 
-pub fn run(_ctx: &Ctx) {
-    println!("INCONCLUSIVE property=C33: check not implemented");
-    std::process::exit(2);
+use crate::common::*;
+use num_bigint::BigUint;
+use std::collections::{BTreeMap, BTreeSet};
+use vcore::{CaseCfg, Ctx, Draw, Outcome, hash_str, json};
+use vdesign::*;
+use veryl_simulator::backend::aot_c::verif_gate;
+use veryl_simulator::ir::{ProtoModuleCache, build_ir, build_ir_cached};
+use veryl_simulator::{Config, Simulator};
+
+pub const NEVER: i64 = i64::MAX;
+
+/// Signature / key of the genuine defect found by this check (see
+/// /verif/known/C33): the compiled code becomes ready between the const-cone
+/// dispatch and the main dispatch of the very first settle of an instance.
+pub const KF_FIRST_SETTLE: &str = "swap-between-const-and-main-dispatch-of-first-settle-skips-const-cone";
+
+pub fn swap_config() -> Config {
+    Config {
+        use_jit: true,
+        aot_c: true,
+        aot_c_event: true,
+        aot_c_async: true,
+        ..Default::default()
+    }
+}
+
+pub fn jit_config() -> Config {
+    Config {
+        use_jit: true,
+        ..Default::default()
+    }
+}
+
+// ------------------------------------------------------------ augmentation
+
+fn decl(name: &str, kind: DeclKind, w: u32) -> Decl {
+    Decl {
+        name: name.to_string(),
+        kind,
+        ty: Ty::u(w),
+        syntax: TySyntax::Logic,
+        array: None,
+        value: None,
+        init: None,
+    }
+}
+
+fn lit(w: u32, v: u64) -> Expr {
+    let m = if w >= 64 { u64::MAX } else { (1u64 << w) - 1 };
+    Expr::lit_u(w, BigUint::from(v & m))
+}
+
+fn push_item(m: &mut Module, it: Item) {
+    m.items.push(it);
+    if !m.print_order.is_empty() {
+        let n = m.items.len() - 1;
+        // anywhere in the text: the order of module items has no meaning
+        m.print_order.push(n);
+    }
+}
+
+/// What `augment` added (class labels).
+#[derive(Default, Clone, Debug)]
+pub struct Added {
+    pub const_cone: bool,
+    pub const_ff: bool,
+    pub chain: Option<&'static str>,
+}
+
+/// Add to the top module: a constant cone (`kc0 = literal; kc1 = f(kc0)`)
+/// that drives an output together with an input, a flip-flop accumulating the
+/// constant (when the top has clock and reset), and a feed-forward chain
+/// through a child module whose output is fed back into another input of the
+/// same / a second instance (no combinational loop: the two paths of the child
+/// are independent).
+pub fn augment(d: &mut Draw, design: &mut Design) -> Added {
+    let mut added = Added::default();
+    let top_i = design.top;
+    let w = *d.pick(&[8u32, 1, 13, 32, 33, 64, 65, 128]);
+    let same_w_input = {
+        let m = &design.modules[top_i];
+        m.inputs().into_iter().find(|&i| {
+            let dc = &m.decls[i];
+            dc.array.is_none() && !dc.ty.signed && dc.ty.w == w && matches!(dc.syntax, TySyntax::Logic | TySyntax::Bit)
+        })
+    };
+    // any plain unsigned input, used through a width cast
+    let any_input = {
+        let m = &design.modules[top_i];
+        m.inputs().into_iter().find(|&i| {
+            let dc = &m.decls[i];
+            dc.array.is_none() && !dc.ty.signed && matches!(dc.syntax, TySyntax::Logic | TySyntax::Bit)
+        })
+    };
+    let in_expr = |m: &Module| -> Option<Expr> {
+        let _ = m;
+        match (same_w_input, any_input) {
+            (Some(i), _) => Some(Expr::var(i)),
+            (None, Some(i)) => Some(Expr::Cast(Box::new(Expr::var(i)), CastTo::Width(w))),
+            _ => None,
+        }
+    };
+    let has_clk = design.modules[top_i].clock().is_some() && design.modules[top_i].reset().is_some();
+
+    if !d.chance(1, 8) {
+        added.const_cone = true;
+        let m = &mut design.modules[top_i];
+        let k0 = m.decls.len();
+        m.decls.push(decl("kc0", DeclKind::Var, w));
+        let k1 = m.decls.len();
+        m.decls.push(decl("kc1", DeclKind::Var, w));
+        let o = m.decls.len();
+        m.decls.push(decl("o_kc", DeclKind::Output, w));
+        let c0 = d.u64() | 1;
+        let c1 = d.u64();
+        push_item(m, Item::Assign { lhs: Ref::whole(k0), rhs: lit(w, c0) });
+        let chain = match d.below(3) {
+            0 => Expr::bin(BinOp::Xor, Expr::var(k0), lit(w, c1)),
+            1 => Expr::bin(BinOp::Add, Expr::var(k0), lit(w, c1 | 2)),
+            _ => Expr::bin(BinOp::Or, Expr::un(UnOp::BitNot, Expr::var(k0)), lit(w, c1)),
+        };
+        push_item(m, Item::Assign { lhs: Ref::whole(k1), rhs: chain });
+        let rhs = match in_expr(m) {
+            Some(e) if !d.chance(1, 4) => Expr::bin(*d.pick(&[BinOp::Xor, BinOp::Add, BinOp::Sub]), Expr::var(k1), e),
+            _ => Expr::var(k1),
+        };
+        push_item(m, Item::Assign { lhs: Ref::whole(o), rhs });
+        if has_clk && !d.chance(1, 4) {
+            added.const_ff = true;
+            let r = m.decls.len();
+            m.decls.push(decl("r_kc", DeclKind::Var, w));
+            let o2 = m.decls.len();
+            m.decls.push(decl("o_rk", DeclKind::Output, w));
+            let body = match in_expr(m) {
+                Some(e) if d.bool() => Expr::bin(BinOp::Add, Expr::var(r), Expr::bin(BinOp::Xor, Expr::var(k1), e)),
+                _ => Expr::bin(BinOp::Add, Expr::var(r), Expr::var(k1)),
+            };
+            push_item(
+                m,
+                Item::AlwaysFf {
+                    reset: vec![Stmt::Assign { lhs: Ref::whole(r), op: AssignOp::Set, rhs: lit(w, 0) }],
+                    body: vec![Stmt::Assign { lhs: Ref::whole(r), op: AssignOp::Set, rhs: body }],
+                    explicit: false,
+                },
+            );
+            push_item(m, Item::Assign { lhs: Ref::whole(o2), rhs: Expr::var(r) });
+        }
+    }
+
+    let shape = d.weighted(&[2, 3, 3]);
+    if shape > 0 {
+        // child with two independent paths a -> p, b -> q
+        let mut fw = Module {
+            name: "Fw".into(),
+            ..Default::default()
+        };
+        fw.decls.push(decl("a", DeclKind::Input, w));
+        fw.decls.push(decl("p", DeclKind::Output, w));
+        fw.decls.push(decl("b", DeclKind::Input, w));
+        fw.decls.push(decl("q", DeclKind::Output, w));
+        let c = d.u64() | 1;
+        fw.items.push(Item::Assign { lhs: Ref::whole(1), rhs: Expr::bin(BinOp::Add, Expr::var(0), lit(w, c)) });
+        fw.items.push(Item::Assign {
+            lhs: Ref::whole(3),
+            rhs: Expr::bin(BinOp::Xor, Expr::var(2), Expr::bin(BinOp::Shr, Expr::var(2), lit(3, 1))),
+        });
+        design.modules.insert(top_i, fw);
+        design.top = top_i + 1;
+        let fw_i = top_i;
+        let m = &mut design.modules[top_i + 1];
+        let src = in_expr(m).unwrap_or_else(|| lit(w, d.u64()));
+        let f1 = m.decls.len();
+        m.decls.push(decl("fw1", DeclKind::Var, w));
+        let f2 = m.decls.len();
+        m.decls.push(decl("fw2", DeclKind::Var, w));
+        let o = m.decls.len();
+        m.decls.push(decl("o_fw", DeclKind::Output, w));
+        if shape == 1 {
+            // one instance, p fed back into b
+            added.chain = Some("self-feed");
+            push_item(
+                m,
+                Item::Inst {
+                    name: "ufw".into(),
+                    module: fw_i,
+                    params: vec![],
+                    conns: vec![(0, Conn::In(src)), (1, Conn::Out(f1)), (2, Conn::In(Expr::var(f1))), (3, Conn::Out(f2))],
+                },
+            );
+            push_item(m, Item::Assign { lhs: Ref::whole(o), rhs: Expr::var(f2) });
+        } else {
+            // two instances: A.p -> B.a, B.p -> A.b, A.q -> out
+            added.chain = Some("cross-feed");
+            let g1 = m.decls.len();
+            m.decls.push(decl("fw3", DeclKind::Var, w));
+            let g2 = m.decls.len();
+            m.decls.push(decl("fw4", DeclKind::Var, w));
+            push_item(
+                m,
+                Item::Inst {
+                    name: "ufa".into(),
+                    module: fw_i,
+                    params: vec![],
+                    conns: vec![(0, Conn::In(src)), (1, Conn::Out(f1)), (2, Conn::In(Expr::var(g1))), (3, Conn::Out(f2))],
+                },
+            );
+            push_item(
+                m,
+                Item::Inst {
+                    name: "ufb".into(),
+                    module: fw_i,
+                    params: vec![],
+                    conns: vec![(0, Conn::In(Expr::var(f1))), (1, Conn::Out(g1)), (2, Conn::In(lit(w, 5))), (3, Conn::Out(g2))],
+                },
+            );
+            push_item(m, Item::Assign { lhs: Ref::whole(o), rhs: Expr::bin(BinOp::Xor, Expr::var(f2), Expr::var(g2)) });
+        }
+    }
+    added
+}
+
+// ------------------------------------------------------------------- runs
+
+/// A design converted once; every `run` is a fresh instance.
+pub struct Converted<'a> {
+    pub a: &'a Analyzed,
+    pub cfg: Config,
+    pub cache: ProtoModuleCache,
+    pub has_comb: bool,
+    pub n_events: usize,
+    pub passes: usize,
+}
+
+pub enum RunErr {
+    /// the compile never finished (inconclusive)
+    WaitFailed,
+    Build(String),
+    Run(String),
+    Panic(String),
+}
+
+impl<'a> Converted<'a> {
+    pub fn new(a: &'a Analyzed) -> Converted<'a> {
+        Converted {
+            a,
+            cfg: swap_config(),
+            cache: ProtoModuleCache::default(),
+            has_comb: false,
+            n_events: 0,
+            passes: 0,
+        }
+    }
+
+    /// One run from reset with swap point `n`; `fresh` converts from scratch
+    /// (own compile) instead of instantiating the cached module.
+    pub fn run(&mut self, stim: &Stimulus, n: i64, presample: bool, fresh: bool) -> Result<Run, RunErr> {
+        verif_gate::set_swap_at(n);
+        let r = std::panic::catch_unwind(std::panic::AssertUnwindSafe(|| -> Result<Run, RunErr> {
+            let ir = if fresh {
+                build_ir(&self.a.ir, "Top".into(), &self.cfg)
+            } else {
+                build_ir_cached(&self.a.ir, "Top".into(), &self.cfg, &mut self.cache)
+            }
+            .map_err(|e| RunErr::Build(format!("build_ir: {e}")))?;
+            self.has_comb = ir.whole_comb.is_some();
+            self.n_events = ir.whole_events.len();
+            self.passes = ir.required_comb_passes;
+            let has_comb = self.has_comb;
+            let mut sim = Simulator::new(ir, None);
+            drive(&mut sim, stim, presample, has_comb, &verif_gate::calls).map_err(RunErr::Run)
+        }));
+        let failed = verif_gate::wait_failed();
+        verif_gate::set_swap_at(-1);
+        match r {
+            Err(e) => Err(RunErr::Panic(panic_text(e))),
+            Ok(_) if failed => Err(RunErr::WaitFailed),
+            Ok(x) => x,
+        }
+    }
+}
+
+fn plain_run(a: &Analyzed, cfg: &Config, stim: &Stimulus, presample: bool) -> Result<Run, String> {
+    verif_gate::set_swap_at(-1);
+    match std::panic::catch_unwind(std::panic::AssertUnwindSafe(|| -> Result<Run, String> {
+        let ir = build_ir(&a.ir, "Top".into(), cfg).map_err(|e| format!("build_ir: {e}"))?;
+        let mut sim = Simulator::new(ir, None);
+        drive(&mut sim, stim, presample, false, &|| 0)
+    })) {
+        Ok(r) => r,
+        Err(e) => Err(format!("panic: {}", panic_text(e))),
+    }
+}
+
+/// Swap points of a case: all of them (thorough) or ~12 sampled ones that
+/// always include 0, 1, 2, last-1 and indices of every kind.
+pub fn swap_points(d: &mut Draw, kinds: &[CallKind], all: bool) -> Vec<i64> {
+    let n = kinds.len() as i64;
+    let mut set: BTreeSet<i64> = BTreeSet::new();
+    if all {
+        set.extend(0..n);
+        return set.into_iter().collect();
+    }
+    for k in [0, 1, 2, n - 1, n - 2] {
+        if k >= 0 && k < n {
+            set.insert(k);
+        }
+    }
+    let of = |k: CallKind| -> Vec<i64> { kinds.iter().enumerate().filter(|(_, x)| **x == k).map(|(i, _)| i as i64).collect() };
+    // between the const dispatch and the main dispatch of one settle
+    let mains = of(CallKind::Main);
+    let consts = of(CallKind::Const);
+    let events = of(CallKind::Event);
+    for (pool, k) in [(&mains, 4usize), (&events, 3), (&consts, 2)] {
+        for _ in 0..k {
+            if !pool.is_empty() {
+                set.insert(pool[d.below_usize(pool.len())]);
+            }
+        }
+    }
+    set.into_iter().collect()
+}
+
+fn class_of(kinds: &[CallKind], n: i64) -> &'static str {
+    match kinds.get(n as usize) {
+        Some(CallKind::Const) => "swap-at:const-dispatch",
+        Some(CallKind::Main) => "swap-at:main-dispatch(between-const-and-main)",
+        Some(CallKind::Event) => "swap-at:event-dispatch",
+        _ => "swap-at:other",
+    }
+}
+
+pub struct CaseOpts {
+    pub all_points: bool,
+    /// per-mille rate at which the swap point of the known finding is kept
+    pub known_per_mille: u32,
+}
+
+/// Verdict for one (design text, stimulus).
+pub fn evaluate(d: &mut Draw, text: &str, stim: &Stimulus, presample: bool, opts: &CaseOpts, mut classes: Vec<String>, forced_points: Option<Vec<i64>>) -> Outcome {
+    let a = match Analyzed::new(text) {
+        Ok(a) => a,
+        Err(r) => {
+            let code = r.errors.first().map(|e| e.0.clone()).unwrap_or_default();
+            return Outcome::skip(format!("generated design rejected by the analyzer ({}:{code})", r.stage));
+        }
+    };
+    let input = |extra: serde_json::Value| json!({"veryl": text, "top": "Top", "stimulus": stim_json(stim), "presample": presample, "detail": extra});
+    let mut cv = Converted::new(&a);
+    // reference: never swapped
+    let reference = match cv.run(stim, NEVER, presample, false) {
+        Ok(r) => r,
+        Err(RunErr::Build(e)) => {
+            let msg: String = e.chars().filter(|c| !c.is_ascii_digit()).take(60).collect();
+            return Outcome::skip(format!("not simulatable ({msg})"));
+        }
+        Err(RunErr::WaitFailed) => return Outcome::skip("inconclusive: the background compile never finished"),
+        Err(RunErr::Run(e)) => return Outcome::skip(format!("driver: {e}")),
+        Err(RunErr::Panic(e)) => {
+            let first: String = e.lines().next().unwrap_or("").chars().filter(|c| !c.is_ascii_digit()).take(70).collect();
+            return Outcome::fail(format!("panic-in-never-swapped-run:{first}"), format!("the simulator panicked with every dispatch answering NotReady: {e}\n{text}"), input(json!(null)));
+        }
+    };
+    if !cv.has_comb && cv.n_events == 0 {
+        return Outcome::skip("the C backend declined the design (no whole-comb / whole-event function)");
+    }
+    // cross-check: the plain Cranelift configuration
+    match plain_run(&a, &jit_config(), stim, presample) {
+        Ok(p) => {
+            if let Some(diff) = first_diff(stim, &p.obs, &reference.obs, "cranelift", "never-swapped") {
+                return Outcome::fail(
+                    "never-swapped-run-differs-from-cranelift",
+                    format!("the asynchronous C configuration that never swaps differs from the plain JIT: {diff}\n{text}"),
+                    input(json!({"diff": diff})),
+                );
+            }
+        }
+        Err(e) => return Outcome::skip(format!("plain JIT run failed: {e}")),
+    }
+    let kinds = reference.kinds.clone();
+    let total = kinds.len() as i64;
+    let mut points = match forced_points {
+        Some(p) => p,
+        None => swap_points(d, &kinds, opts.all_points),
+    };
+    // the known finding: N = main dispatch of the very first settle
+    let first_main = kinds.iter().position(|k| *k == CallKind::Main).map(|i| i as i64).filter(|&i| i == 1 && kinds.first() == Some(&CallKind::Const));
+    let mut excluded_known = 0u64;
+    if let Some(fm) = first_main {
+        if points.contains(&fm) && !(opts.known_per_mille > 0 && d.below(1000) < opts.known_per_mille) {
+            points.retain(|&p| p != fm);
+            excluded_known += 1;
+        }
+    }
+    let mut by_kind: BTreeMap<&'static str, u32> = BTreeMap::new();
+    let mut failures: Vec<(i64, String)> = vec![];
+    for &n in &points {
+        if n >= total {
+            continue;
+        }
+        *by_kind.entry(class_of(&kinds, n)).or_insert(0) += 1;
+        let run = match cv.run(stim, n, presample, false) {
+            Ok(r) => r,
+            Err(RunErr::WaitFailed) => return Outcome::skip("inconclusive: the background compile never finished"),
+            Err(RunErr::Build(e)) | Err(RunErr::Run(e)) => return Outcome::skip(format!("swap run failed to start: {e}")),
+            Err(RunErr::Panic(e)) => {
+                failures.push((n, format!("panic: {e}")));
+                continue;
+            }
+        };
+        if let Some(diff) = first_diff(stim, &reference.obs, &run.obs, "never-swapped", &format!("swap@{n}")) {
+            failures.push((n, diff));
+        }
+    }
+    if failures.is_empty() {
+        if cv.has_comb {
+            classes.push("cc:whole-comb".into());
+        }
+        if cv.n_events > 0 {
+            classes.push(format!("cc:whole-events={}", cv.n_events.min(3)));
+        }
+        classes.push(format!("comb-passes={}", cv.passes.min(4)));
+        for (k, v) in &by_kind {
+            if *v > 0 {
+                classes.push(k.to_string());
+            }
+        }
+        if excluded_known > 0 {
+            classes.push(format!("excluded:{KF_FIRST_SETTLE}"));
+        }
+        if !reference.obs.display.is_empty() {
+            classes.push("display:text_compared".into());
+        }
+        if presample {
+            classes.push("presample".into());
+        }
+        classes.push(format!("dispatch-calls:{}", if total < 20 { "<20" } else if total < 60 { "20-59" } else { "60+" }));
+        let has_const = classes.iter().any(|c| c == "aug:const-cone");
+        let nontrivial = (cv.has_comb && (has_const || cv.passes > 1)) || cv.n_events > 0;
+        return Outcome::pass(
+            hash_str(&format!("{text}{}", stim_json(stim))),
+            nontrivial,
+            classes,
+            format!("{text}// stimulus: {}\n// swap points: {points:?} of {total}", stim_json(stim)),
+        );
+    }
+    // ---- a difference: must reproduce on an instance converted from scratch
+    let (n, diff) = failures[0].clone();
+    let kind = kinds.get(n as usize).copied().unwrap_or(CallKind::Unknown);
+    let fresh = cv.run(stim, n, presample, true);
+    let fresh_diff = match &fresh {
+        Ok(r) => first_diff(stim, &reference.obs, &r.obs, "never-swapped", &format!("swap@{n}(fresh)")),
+        Err(RunErr::Panic(e)) => Some(format!("panic: {e}")),
+        Err(RunErr::WaitFailed) => return Outcome::skip("inconclusive: the background compile never finished (confirmation run)"),
+        Err(_) => return Outcome::skip("confirmation run failed to start"),
+    };
+    // is the compiled code itself different from the JIT (C02's business)?
+    let at0 = failures.iter().any(|(k, _)| *k == 0);
+    let all_fail = failures.len() == points.iter().filter(|&&p| p < total).count();
+    let sig = match (&fresh_diff, kind) {
+        (None, _) => "difference-only-on-cached-instance".to_string(),
+        (Some(x), _) if x.starts_with("panic") => {
+            let first: String = x.lines().next().unwrap_or("").chars().filter(|c| !c.is_ascii_digit()).take(70).collect();
+            format!("panic-after-swap:{first}")
+        }
+        (Some(_), _) if at0 && all_fail => "compiled-code-differs-from-jit-at-every-swap-point".to_string(),
+        (Some(_), CallKind::Main) if n == 1 => KF_FIRST_SETTLE.to_string(),
+        (Some(_), CallKind::Main) => "swap-between-const-and-main-dispatch".to_string(),
+        (Some(_), CallKind::Const) => "swap-at-settle-boundary".to_string(),
+        (Some(_), CallKind::Event) => "swap-at-event-dispatch".to_string(),
+        (Some(_), CallKind::Unknown) => "swap-at-unclassified-dispatch".to_string(),
+    };
+    let list: Vec<String> = failures.iter().take(8).map(|(k, m)| format!("  N={k} ({:?}): {m}", kinds.get(*k as usize).copied().unwrap_or(CallKind::Unknown))).collect();
+    Outcome::fail(
+        sig,
+        format!(
+            "trace depends on the swap point ({} of {} tried points differ from the never-swapped run; {} dispatch calls, comb passes {}):\n{}\nfirst: N={n}: {diff}\nconfirmation on a from-scratch conversion: {}\n{text}",
+            failures.len(),
+            points.len(),
+            total,
+            cv.passes,
+            list.join("\n"),
+            fresh_diff.clone().unwrap_or_else(|| "NOT reproduced".into()),
+        ),
+        input(json!({"swap_points": failures.iter().map(|f| f.0).collect::<Vec<_>>(), "kinds": kinds.iter().map(|k| format!("{k:?}")).collect::<Vec<_>>()})),
+    )
+}
+
+pub fn one_case(d: &mut Draw, opts: &CaseOpts) -> Outcome {
+    let mut cfg = GenCfg::default();
+    cfg.display = d.chance(1, 4);
+    // where SystemVerilog gives X the engines may differ (C02's finding);
+    // this check is about the swap, so everything is guarded
+    cfg.unguarded_per_mille = 0;
+    cfg.max_width = 160;
+    let mut g = gen_design(d, &cfg);
+    let added = augment(d, &mut g.design);
+    let cycles = 4 + d.below(8) as usize;
+    let mut stim = gen_stimulus(d, &g.design, cycles);
+    // now and then the run does not start with a reset: what the first
+    // settle computed is then what the flip-flops latch
+    if stim.reset.is_some() && d.chance(1, 3) {
+        for s in stim.steps.iter_mut().take(2) {
+            s.reset = false;
+        }
+    }
+    let presample = !d.chance(1, 4);
+    let text = print_design(&g.design);
+    let mut classes: Vec<String> = vec![];
+    if added.const_cone {
+        classes.push("aug:const-cone".into());
+    }
+    if added.const_ff {
+        classes.push("aug:const-cone-into-ff".into());
+    }
+    if let Some(c) = added.chain {
+        classes.push(format!("aug:chain-{c}"));
+    }
+    if g.design.top().has_ff() {
+        classes.push("design:sequential".into());
+    }
+    if g.design.modules.len() > 1 {
+        classes.push("design:hierarchy".into());
+    }
+    if std::env::var("C33_DUMP").is_ok() {
+        println!("{text}// stimulus: {}", stim_json(&stim));
+    }
+    evaluate(d, &text, &stim, presample, opts, classes, None)
+}
+
+/// Replay of a recorded reproducer (`veryl`, `stimulus`, `presample`, `detail.swap_points`).
+pub fn replay_recorded(p: &vcore::Value) -> Outcome {
+    let text = p["veryl"].as_str().unwrap_or("");
+    let stim = stim_from(&p["stimulus"]);
+    let presample = p["presample"].as_bool().unwrap_or(true);
+    let points: Vec<i64> = p["detail"]["swap_points"].as_array().map(|a| a.iter().filter_map(|x| x.as_i64()).collect()).unwrap_or_default();
+    let mut d = Draw::new(vec![]);
+    let opts = CaseOpts {
+        all_points: false,
+        known_per_mille: 1000,
+    };
+    // known_per_mille = 1000 needs a draw below 1000: an empty Draw gives 0
+    evaluate(&mut d, text, &stim, presample, &opts, vec!["recorded".into()], if points.is_empty() { None } else { Some(points) })
+}
+
+pub fn run(ctx: &Ctx) {
+    // the compile pool of the simulator: its size and niceness are
+    // performance knobs only (read once, before the first compile)
+    if std::env::var("VERYL_AOT_C_COMPILE_JOBS").is_err() {
+        unsafe { std::env::set_var("VERYL_AOT_C_COMPILE_JOBS", "8") };
+    }
+    if std::env::var("VERYL_AOT_C_NICE").is_err() {
+        unsafe { std::env::set_var("VERYL_AOT_C_NICE", "0") };
+    }
+    if !veryl_simulator::backend::aot_c::cc_available() {
+        println!("INCONCLUSIVE property=C33: no C compiler (`cc`) on this host");
+        std::process::exit(2);
+    }
+    ctx.run_payloads("recorded", |p| {
+        std::thread::scope(|s| {
+            std::thread::Builder::new()
+                .stack_size(16 << 20)
+                .spawn_scoped(s, || replay_recorded(p))
+                .expect("spawn")
+                .join()
+                .unwrap_or_else(|_| Outcome::fail("panic:recorded", "the replay panicked", p.clone()))
+        })
+    });
+    let n = std::env::var("C33_CASES").ok().and_then(|s| s.parse::<usize>().ok()).unwrap_or(ctx.scale(90, 3000));
+    let opts = CaseOpts {
+        all_points: !ctx.is_quick(),
+        known_per_mille: std::env::var("C33_KNOWN_PER_MILLE").ok().and_then(|s| s.parse().ok()).unwrap_or(60),
+    };
+    ctx.run("designs", CaseCfg::cases(n).choices(8000).timeout_s(900).shrink_iters(40), |d| one_case(d, &opts));
+    ctx.assume("the hook verif_gate gates all artifacts of a design (whole-comb and every whole-event function) at one common dispatch index; a schedule where the event artifact is ready before the comb artifact (or vice versa) is outside this check's reach");
+    ctx.assume("every run is a fresh instance of one converted module (ProtoModuleCache), so all swap points share one compile; a difference is confirmed on a from-scratch conversion before it is reported");
+    ctx.finish(
+        "exploration",
+        "generated designs (vdesign: children with parameter overrides, let/assign/always_comb, always_ff with reset, functions, structs, arrays, $display on 1/4) augmented with a constant cone feeding an output and a flip-flop and a feed-forward chain crossing a module boundary twice, x stimulus of 4-11 cycles (1/3 without the initial reset), under the asynchronous C backend with the swap forced at dispatch call N (quick: ~12 sampled incl. 0,1,2,last and indices between const and main dispatch; thorough: every index); non-trivial = the C backend compiled the whole comb of a design with a constant cone or > 1 comb pass, or compiled an always_ff event; distinct by text + stimulus",
+    );
 }
